@@ -1307,7 +1307,7 @@ def run(tier='quick', replay=None):
             if conf == obs or (st['op'] == 'derive' and not conf.startswith('ERR:') and not obs.startswith('ERR:') and lines_of(conf) == lines_of(obs)):
                 return None, 'counterexample %s not confirmed against a brand-new interpreter' % key
             culprits = []
-            if key.startswith('history:'):
+            if key.startswith('history:') and key not in known_keys:
                 # causes with a structural fingerprint
                 anon = lambda t: re.sub(r'(_?nodeanon|[A-Za-z]+anon)#?\d+', '@', t)
                 if anon(obs) == anon(conf) and 'anon' in obs:
